@@ -83,19 +83,12 @@ Theorem C18_distvec_mic_grad : forall x1 x2 : vec3,
 Proof. intros; split; [apply dv_dist2_nopbc | apply dv_lgrad_pbc_nocell]. Qed.
 Print Assumptions C18_distvec_mic_grad.
 
-(* FULL STATEMENT (what the property demands of the forceNoPBC branch too):
-     forall x1 x2, dv_lgrad Rops false None x1 x2 = v3_grad Rops x1 x2
-   It is FALSE of the faithful model of distance_vec::dist2_lgrad: that branch returns 2*(x2 - x1),
-   i.e. minus the derivative (C18_vector3_grad_is_derivative shows v3_grad is the derivative). *)
-Theorem C18_distvec_nopbc_lgrad_refuted : exists x1 x2 : vec3,
-  dv_lgrad Rops false None x1 x2 <> v3_grad Rops x1 x2 /\
-  dv_lgrad Rops false None x1 x2 = v3scale Rops (-1) (v3_grad Rops x1 x2).
-Proof.
-  exists (1, 0, 0), (0, 0, 0). split; [|apply dv_lgrad_nopbc_is_minus_grad].
-  unfold dv_lgrad, v3_grad, v3scale, v3sub; cbn. intros H.
-  apply (f_equal (fun v : R * R * R => fst (fst v))) in H. cbn in H. lra.
-Qed.
-Print Assumptions C18_distvec_nopbc_lgrad_refuted.
+(* the forceNoPBC branch reports the plain gradient (this statement was refuted by the code before the
+   fix of distance_vec::dist2_lgrad, which returned 2*(x2 - x1); see known_findings.txt) *)
+Theorem C18_distvec_nopbc_lgrad_correct : forall (x1 x2 : vec3) (cell : option vec3),
+  dv_lgrad Rops false cell x1 x2 = v3_grad Rops x1 x2.
+Proof. exact dv_lgrad_nopbc. Qed.
+Print Assumptions C18_distvec_nopbc_lgrad_correct.
 
 (* ---- wrapping ---- *)
 Theorem C18_wrap_range : forall c P x : R, 0 < P ->
